@@ -23,12 +23,12 @@ type progLayout struct {
 }
 
 type program struct {
-	L     progLayout      `json:"layout"`
+	L     progLayout       `json:"layout"`
 	Image map[uint16]uint8 `json:"-"`
-	Bytes []progChunk     `json:"chunks"`
-	IFF   bool            `json:"iff"` // initial IFF1 == IFF2
-	Seed  uint64          `json:"seed"`
-	Tags  map[string]bool `json:"-"`
+	Bytes []progChunk      `json:"chunks"`
+	IFF   bool             `json:"iff"` // initial IFF1 == IFF2
+	Seed  uint64           `json:"seed"`
+	Tags  map[string]bool  `json:"-"`
 }
 
 type progChunk struct {
@@ -41,9 +41,9 @@ type asm struct {
 	buf []uint8
 }
 
-func (a *asm) pc() uint16       { return a.org + uint16(len(a.buf)) }
-func (a *asm) emit(b ...uint8)  { a.buf = append(a.buf, b...) }
-func (a *asm) emit16(v uint16)  { a.buf = append(a.buf, uint8(v), uint8(v>>8)) }
+func (a *asm) pc() uint16      { return a.org + uint16(len(a.buf)) }
+func (a *asm) emit(b ...uint8) { a.buf = append(a.buf, b...) }
+func (a *asm) emit16(v uint16) { a.buf = append(a.buf, uint8(v), uint8(v>>8)) }
 func (a *asm) patch16(at int, v uint16) {
 	a.buf[at], a.buf[at+1] = uint8(v), uint8(v>>8)
 }
